@@ -107,8 +107,20 @@ def run(repo: Repo, rep: Report, tier: str) -> None:
     L = Locals(su.node)
     sub0 = f"{conv.relpath}:_structure_union"
     # the discriminated region: `for <m> in <union>.__metadata__`
-    mloops = [n for n in own_nodes(su.node) if isinstance(n, ast.For) and isinstance(n.target, ast.Name)
-              and any(isinstance(x, ast.Attribute) and x.attr == "__metadata__" for x in ast.walk(L.inline(n.iter)))]
+    def _meta_loops(fn_, L_):
+        return [n for n in own_nodes(fn_.node) if isinstance(n, ast.For) and isinstance(n.target, ast.Name)
+                and any((isinstance(x, ast.Attribute) and x.attr == "__metadata__") or (
+                    isinstance(x, ast.Call) and dotted(x.func) == "getattr" and len(x.args) >= 2 and const_str(x.args[1]) == "__metadata__") for x in ast.walk(L_.inline(n.iter)))]
+
+    mloops = _meta_loops(su, L)
+    if not mloops and not getattr(su, "flattened", False):
+        from sa.flatten import flatten as _fl14m
+
+        su = _fl14m(su)  # the discriminated lookup was moved into a helper of the module
+        cfg = CFG(su.node)
+        dom = cfg.dominators()
+        L = Locals(su.node)
+        mloops = _meta_loops(su, L)
     rep.require(len(mloops) == 1, f"R14.1: expected one loop over <union>.__metadata__, found {len(mloops)}")
     if not mloops:
         return
